@@ -218,6 +218,9 @@ func cloneForReceiver(m any) any {
 //
 // This is the recommended way to do it: https://github.com/golang/protobuf/issues/1163#issuecomment-654334690
 func permissiveProtoMerge(dst, src proto.Message) error {
+	// receiving REPLACES what dst held, as unmarshalling from the wire does: a caller that receives into
+	// the same message again must not keep fields of the previous one
+	proto.Reset(dst)
 	if dst.ProtoReflect().Descriptor() == src.ProtoReflect().Descriptor() {
 		// easy case, where proto.Merge can be used
 		proto.Merge(dst, src)
